@@ -402,3 +402,113 @@ pub proof fn c02_tier_independence(p1: &Partition, p2: &Partition, start: int, c
         r2 == slice_of(log(p2), start, start + count - 1),      // [C02.slice] for p2
     ensures r1 == r2,
 {}
+
+// ---- filter_segments_by_offsets ----
+// first index >= from whose segment starts above `end` (or the length)
+pub open spec fn first_above(segs: Seq<Segment>, end: int, from: int) -> int
+    decreases segs.len() - from,
+{
+    if from >= segs.len() { segs.len() as int } else if segs[from].start_offset > end { from } else { first_above(segs, end, from + 1) }
+}
+pub proof fn lemma_first_above(segs: Seq<Segment>, end: int, from: int)
+    requires sorted_by_start(segs), 0 <= from <= segs.len(),
+    ensures
+        from <= first_above(segs, end, from) <= segs.len(),
+        forall|i: int| from <= i < segs.len() ==> ((#[trigger] segs[i]).start_offset <= end <==> i < first_above(segs, end, from)),
+    decreases segs.len() - from,
+{
+    if from < segs.len() && segs[from].start_offset <= end { lemma_first_above(segs, end, from + 1); }
+}
+// `lo` = what rposition(start_offset <= start) yields (or 0), k = where the filter (start_offset <= end) stops holding:
+// lo..k are exactly the segments whose range intersects [start, end]
+pub proof fn lemma_filter_hits(segs: Seq<Segment>, start: int, end: int, lo: int)
+    requires
+        sorted_by_start(segs), start <= end, 0 <= lo <= segs.len(), lo < segs.len() || segs.len() == 0,
+        forall|j: int| lo < j < segs.len() ==> (#[trigger] segs[j]).start_offset > start,
+        lo > 0 ==> segs[lo].start_offset <= start,
+    ensures
+        lo <= first_above(segs, end, lo) <= segs.len(),
+        hit_range(segs, start, end, lo, first_above(segs, end, lo)),
+        forall|i: int| lo <= i < segs.len() ==> ((#[trigger] segs[i]).start_offset <= end <==> i < first_above(segs, end, lo)),
+        (segs.len() > 0 && segs[lo].start_offset <= start) ==> lo < first_above(segs, end, lo),
+{
+    let k = first_above(segs, end, lo);
+    lemma_first_above(segs, end, lo);
+    assert forall|i: int| 0 <= i < segs.len() implies ((lo <= i < k) <==> #[trigger] seg_hits(segs, i, start, end)) by {
+        if i < lo {
+            assert(segs[i + 1].start_offset <= segs[lo].start_offset);
+        } else if i < k {
+            assert(segs[i].start_offset <= end);
+        } else {
+            assert(segs[i].start_offset > end);
+        }
+    }
+}
+
+// ---- get_messages_from_segments: one step of the accumulation, and the early stop ----
+// segs consecutive, f = first start, [lo, hi] = [max(offset, f), lo + count - 1]; w = what has been collected from the first i
+// segments; sm = what segment i returns for (offset, remaining = count - |w|)
+pub proof fn lemma_multi_step(segs: Seq<Segment>, i: int, offset: int, count: int, w: Seq<RetainedMessage>, sm: Seq<RetainedMessage>)
+    requires
+        segs_wf(segs), 0 <= i < segs.len(), count >= 0,
+        w == window(log_upto(segs, i), segs[0].start_offset as int, max_int(offset, segs[0].start_offset as int), max_int(offset, segs[0].start_offset as int) + count - 1),
+        count - w.len() > 0,
+        sm == slice_of(seg_all(&segs[i]), max_int(offset, segs[i].start_offset as int), max_int(offset, segs[i].start_offset as int) + (count - w.len()) - 1),
+    ensures
+        w + sm == window(log_upto(segs, i + 1), segs[0].start_offset as int, max_int(offset, segs[0].start_offset as int), max_int(offset, segs[0].start_offset as int) + count - 1),
+        sm.len() <= count - w.len(),
+{
+    let f = segs[0].start_offset as int; let lo = max_int(offset, f); let hi = lo + count - 1;
+    let si = segs[i].start_offset as int;
+    let li = log_upto(segs, i); let a = seg_all(&segs[i]); let l1 = log_upto(segs, i + 1);
+    let rem = count - w.len();
+    let m = max_int(offset, si);
+    lemma_log_shape(segs, i); lemma_log_shape(segs, i + 1);
+    assert(l1 == li + a);
+    assert(contig(a, si));
+    if i > 0 { lemma_sorted_ij(segs, 0, i); }
+    assert(li.len() == si - f);
+    lemma_slice_window(a, si, m, m + rem - 1);
+    // the window of segment i asked for (m, rem) is its part of the window [lo, hi]
+    assert(window(a, si, m, m + rem - 1) == window(a, si, lo, hi)) by {
+        if i == 0 || offset >= si {
+            assert(m == lo);
+            assert(w.len() == 0);
+        } else {
+            assert(m == si && lo <= si);
+            assert(w.len() == si - lo);
+        }
+    }
+    let wa = window(a, si, lo, hi); let w1 = window(l1, f, lo, hi);
+    assert(w + wa =~= w1);
+}
+// `count` messages have been collected from the first i segments: the later segments hold nothing of the window
+pub proof fn lemma_multi_full(segs: Seq<Segment>, i: int, offset: int, count: int)
+    requires
+        segs_wf(segs), 0 <= i <= segs.len(), segs.len() > 0, count >= 0,
+        window(log_upto(segs, i), segs[0].start_offset as int, max_int(offset, segs[0].start_offset as int), max_int(offset, segs[0].start_offset as int) + count - 1).len() == count,
+    ensures
+        window(log_upto(segs, i), segs[0].start_offset as int, max_int(offset, segs[0].start_offset as int), max_int(offset, segs[0].start_offset as int) + count - 1)
+            == window(log_upto(segs, segs.len() as int), segs[0].start_offset as int, max_int(offset, segs[0].start_offset as int), max_int(offset, segs[0].start_offset as int) + count - 1),
+{
+    let n = segs.len() as int;
+    let f = segs[0].start_offset as int; let lo = max_int(offset, f); let hi = lo + count - 1;
+    lemma_log_split(segs, i, n, n - i);
+    let li = log_upto(segs, i); let ln = log_upto(segs, n);
+    assert(ln == li + log_upto(segs.subrange(i, n), n - i));
+    assert(window(li, f, lo, hi) =~= window(ln, f, lo, hi));
+}
+pub proof fn lemma_log_one(d: Seq<Segment>)
+    requires d.len() >= 1,
+    ensures log_upto(d, 1) == seg_all(&d[0]),
+{
+    reveal_with_fuel(log_upto, 2);
+    assert(Seq::<RetainedMessage>::empty() + seg_all(&d[0]) =~= seg_all(&d[0]));
+}
+pub proof fn lemma_slice_empty(l: Seq<RetainedMessage>, lo: int, hi: int)
+    requires lo > hi,
+    ensures slice_of(l, lo, hi) == Seq::<RetainedMessage>::empty(),
+{
+    lemma_keep_window(l, off_in(lo, hi), 0, 0);
+    assert(l.subrange(0, 0) =~= Seq::<RetainedMessage>::empty());
+}
